@@ -139,6 +139,7 @@ int main(int argc, char **argv) {
     vector<double> ws = {0, 0.5, 1, 2}, wl = {-1, 0, 0.5, 2};
     run(1, 2, ws, false); run(2, 4, ws, false); run(3, 4, ws, false); run(4, 3, ws, false);
     run(2, 3, wl, true); run(3, 3, wl, true); families(T);
-    if (T) { run(4, 4, ws, false); run(5, 3, ws, false); run(4, 3, wl, true); run(3, 4, wl, true); run(5, 4, {0.5, 1}, false); run(6, 3, {0.5, 1}, false); run(5, 4, ws, false); run(4, 4, wl, true); }
+    run(4, 4, ws, false); run(5, 3, ws, false); run(4, 3, wl, true); run(3, 4, wl, true); run(5, 4, {0.5, 1}, false); run(6, 3, {0.5, 1}, false); run(5, 4, ws, false); run(4, 4, wl, true);
+    if (T) { run(4, 5, {0, 0.5, 2}, false); run(6, 4, {1}, false); run(5, 5, {0.5, 1}, false); run(4, 5, {-1, 0, 2}, true); }
     return ctx.finish();
 }
